@@ -150,6 +150,80 @@ func Counting(p *core.Prog, r *core.Report) {
 			r.Bad(rule, "oneOf:kept-errors", p.Pos(f.Pos()), "the 'important' errors kept from failing alternatives survive when exactly one alternative holds (they are only cleared at the moment an alternative succeeds; an alternative failing after it adds them again and the caller merges them): {\"oneOf\":[{\"required\":[\"headers\"]},{\"additionalProperties\":false}]} rejects {\"headers\":{\"h\":{\"$ref\":\"#/x\"}}} although exactly one alternative holds, and accepts it with the alternatives swapped")
 		}
 	}
+	// ---- every composition keyword with at least one member is applied ------------------------------------
+	// (the dispatcher calls validateAnyOf / validateOneOf / validateAllOf under a test of the number of members:
+	// that test must be "at least one" — `> 1` lets {"oneOf": [S]} accept everything)
+	if f := p.Func("(*schemaPropsValidator).Validate"); f != nil {
+		nG := 0
+		core.EachInstr(f, func(i ssa.Instruction) {
+			c, ok := i.(*ssa.Call)
+			if !ok {
+				return
+			}
+			g := core.StaticCallee(c)
+			if g == nil || g.Signature.Recv() == nil || len(c.Call.Args) == 0 || g == f {
+				return
+			}
+			// on the receiver itself (possibly through the cell the deferred closure shares)
+			if rp, ok := core.StablePath(c.Call.Args[0]); !ok || rp != f.Params[0].Name() {
+				return
+			}
+			for _, cd := range core.ControlConds(c.Block()) {
+				bo, ok := cd.Value.(*ssa.BinOp)
+				if !ok {
+					continue
+				}
+				lenOf := func(v ssa.Value) bool {
+					lc, ok := v.(*ssa.Call)
+					if !ok {
+						return false
+					}
+					b, ok := lc.Call.Value.(*ssa.Builtin)
+					if !ok || b.Name() != "len" {
+						return false
+					}
+					pth, ok := core.StablePath(lc.Call.Args[0])
+					return ok && strings.HasPrefix(pth, f.Params[0].Name()+".")
+				}
+				op, k, has := bo.Op, int64(0), false
+				if lenOf(bo.X) {
+					k, has = core.ConstInt(bo.Y)
+				} else if lenOf(bo.Y) {
+					k, has = core.ConstInt(bo.X)
+					switch op { // k OP len  ==  len OP' k
+					case token.LSS:
+						op = token.GTR
+					case token.GTR:
+						op = token.LSS
+					case token.LEQ:
+						op = token.GEQ
+					case token.GEQ:
+						op = token.LEQ
+					}
+				}
+				if !has {
+					continue
+				}
+				nG++
+				// the guard as a predicate "len ≥ 1"?
+				atLeastOne := false
+				switch {
+				case cd.Sense && ((op == token.GTR && k == 0) || (op == token.NEQ && k == 0) || (op == token.GEQ && k == 1)):
+					atLeastOne = true
+				case !cd.Sense && ((op == token.EQL && k == 0) || (op == token.LSS && k == 1) || (op == token.LEQ && k == 0)):
+					atLeastOne = true
+				}
+				key := "applied-when-nonempty:" + g.Name()
+				if atLeastOne {
+					r.OK(rule, key, p.Pos(c.Pos()), g.Name()+" runs whenever the keyword has at least one member")
+				} else {
+					r.Bad(rule, key, p.Pos(c.Pos()), fmt.Sprintf("%s runs only when the number of members satisfies `len %s %d` (%v): a keyword with fewer members than that is silently ignored — {\"oneOf\": [S]} then accepts every instance", g.Name(), op, k, cd.Sense))
+				}
+			}
+		})
+		r.Count("composition_guards", nG)
+		r.Floor("composition_guards", 3)
+	}
 	// ---- oneOf -------------------------------------------------------------------------------
 	if f := p.Func("(*schemaPropsValidator).validateOneOf"); f != nil {
 		phi := counterOf(f, "validated")
